@@ -123,11 +123,11 @@ Section InsertChain.
           if prev_is (d_mom head) fr then apply_all c pool rest start
           else
             match by_height c (u64 (s_height (d_mom head) - 1)) with
-            | None => (if fixed then ICErr 0 ELink else ICPanic, (c, pool)) (* target.Identifier() on nil *)
+            | None => (if fixed then ICErr start ELink else ICPanic, (c, pool)) (* target.Identifier() on nil *)
             | Some target =>
-              if negb (prev_is (d_mom head) target) then (ICErr 0 ELink, (c, pool))
-              else if 30 <? u64 (s_height fr - s_height target) then (ICErr 0 ETooFar, (c, pool))
-              else if s_height (d_mom tail) <=? s_height fr then (ICErr 0 ENotLonger, (c, pool))
+              if negb (prev_is (d_mom head) target) then (ICErr start ELink, (c, pool))
+              else if 30 <? u64 (s_height fr - s_height target) then (ICErr start ETooFar, (c, pool))
+              else if s_height (d_mom tail) <=? s_height fr then (ICErr start ENotLonger, (c, pool))
               else apply_all (rollback_to c (s_height target))             (* rollback BEFORE verification; *)
                              (if clears then [] else pool) rest start      (* DeleteMomentum empties the pool *)
             end
@@ -161,11 +161,11 @@ Section InsertChain.
           if prev_is (d_mom head) fr then apply_all c pool rest start
           else
             match by_height snap (u64 (s_height (d_mom head) - 1)) with
-            | None => (ICErr 0 ELink, (c, pool))
+            | None => (ICErr start ELink, (c, pool))
             | Some target =>
-              if negb (prev_is (d_mom head) target) then (ICErr 0 ELink, (c, pool))
-              else if 30 <? u64 (s_height fr - s_height target) then (ICErr 0 ETooFar, (c, pool))
-              else if s_height (d_mom tail) <=? s_height fr then (ICErr 0 ENotLonger, (c, pool))
+              if negb (prev_is (d_mom head) target) then (ICErr start ELink, (c, pool))
+              else if 30 <? u64 (s_height fr - s_height target) then (ICErr start ETooFar, (c, pool))
+              else if s_height (d_mom tail) <=? s_height fr then (ICErr start ENotLonger, (c, pool))
               else apply_all (rollback_to c (s_height target)) (if clears then [] else pool) rest start
             end
         end
